@@ -343,10 +343,38 @@ class CSSSerializer:
         """
         if not self.prefs.lineSeparator:
             return text
-        return self.prefs.lineSeparator.join([
-            f'{level * self.prefs.indent}{line}'
-            for line in text.split(self.prefs.lineSeparator)
-        ])
+        indent = level * self.prefs.indent
+        lines = []
+        incomment = False
+        for line in text.split(self.prefs.lineSeparator):
+            # a line continuing a comment is part of the comment's text
+            lines.append(line if incomment else f'{indent}{line}')
+            incomment = self._endsincomment(line, incomment)
+        return self.prefs.lineSeparator.join(lines)
+
+    @staticmethod
+    def _endsincomment(line, incomment):
+        "Return if the end of `line` is inside a comment."
+        quote = None
+        i = 0
+        while i < len(line):
+            c = line[i]
+            if incomment:
+                if line.startswith('*/', i):
+                    incomment = False
+                    i += 1
+            elif quote:
+                if c == '\\':
+                    i += 1
+                elif c == quote:
+                    quote = None
+            elif c in '"\'':
+                quote = c
+            elif line.startswith('/*', i):
+                incomment = True
+                i += 1
+            i += 1
+        return incomment
 
     def _propertyname(self, property, actual):
         """
